@@ -1,0 +1,8 @@
+//go:build !verif
+
+package mustache
+
+import mparsers "github.com/pip-services3-gox/pip-services3-expressions-gox/mustache/parsers"
+
+// verifRenderStep is a no-op unless the library is built with the "verif" build tag.
+func verifRenderStep(variables map[string]string, token *mparsers.MustacheToken) {}
